@@ -138,6 +138,14 @@ func (f *FileOutputHandler) Load(
 		return err
 	}
 
+	// Whatever sits at the output path without being a regular file (a directory, a symlink)
+	// must make way: it cannot be overwritten in place and a link must not be written through
+	if info, err := os.Lstat(absOutputPath); err == nil && !info.Mode().IsRegular() {
+		if err := os.RemoveAll(absOutputPath); err != nil {
+			return err
+		}
+	}
+
 	outputFile, err := os.Create(absOutputPath)
 	if err != nil {
 		return err
